@@ -116,9 +116,10 @@ State = tuple[int, frozenset[str], tuple[tuple[str, bool], ...]]
 
 
 class Explorer:
-    def __init__(self, cfg: CFG, relevant: Callable[[str], bool] | None = None, budget: int = 300000):
+    def __init__(self, cfg: CFG, relevant: Callable[[str], bool] | None = None, budget: int = 300000, gen: Callable[[object, frozenset[str]], Iterable[str]] | None = None):
         self.cfg = cfg
         self.relevant = relevant or (lambda f: True)
+        self.gen = gen  # gen(node, facts before the statement) -> facts the statement establishes (added after the kill)
         self.budget = budget
         self.parent: dict[State, State | None] = {}
 
@@ -151,6 +152,10 @@ class Explorer:
                 a0 = node.ast
                 if isinstance(a0, ast.Assign) and len(a0.targets) == 1 and isinstance(a0.targets[0], ast.Name) and isinstance(a0.value, ast.Constant) and isinstance(a0.value.value, bool):
                     fl[a0.targets[0].id] = a0.value.value
+                if self.gen is not None:
+                    g = frozenset(self.gen(node, facts))
+                    if g:
+                        f1 = f1 | g
             if node.kind == "iter" and isinstance(node.owner, (ast.For, ast.AsyncFor)):
                 tg = {x.id for x in ast.walk(node.owner.target) if isinstance(x, ast.Name)}
                 f1 = frozenset(f for f in f1 if not (names_of_text(f) & tg))
